@@ -277,7 +277,13 @@ func checkC08(c *Case, s *Stats) error {
 		return err
 	}
 	s.class("mode=" + c.Opt.mode())
-	s.class("gen=" + c.Gen)
+	for i, part := range strings.Split(c.Gen, "/") {
+		if i == 0 {
+			s.class("gen=" + part)
+		} else {
+			s.class("inject=" + part)
+		}
+	}
 	if berr != nil {
 		if st != nil {
 			return viol("err-and-trie", "NewSlimTrie returned an error (%v) and a non-nil trie", berr)
@@ -293,7 +299,7 @@ func checkC08(c *Case, s *Stats) error {
 			}
 			s.class("rejected_beyond_documented_limit")
 		}
-		s.done(c, c.Scrib != 0, c.Gen)
+		s.done(c, c.Scrib != 0, strings.SplitN(c.Gen, "/", 2)[0])
 		return nil
 	}
 	if st == nil {
@@ -335,7 +341,7 @@ func checkC08(c *Case, s *Stats) error {
 	} else {
 		s.class("accepted_valid")
 	}
-	s.done(c, c.Scrib != 0, c.Gen)
+	s.done(c, c.Scrib != 0, strings.SplitN(c.Gen, "/", 2)[0])
 	return nil
 }
 
